@@ -492,7 +492,11 @@ func ckksTransformLeaf(c *engine.Chooser, name string, k cfg) {
 			}
 			return err
 		},
-		Hop:  mp.HopRefresh,
+		Hop: mp.HopRefresh,
+		Used: func(which int) multiparty.RefreshShare {
+			return mp.UsedRefresh(rp, rpo, mtp[0].AllocateShare, which, name)
+		},
+		Into: mp.IntoRefresh,
 		Flat: func(a multiparty.RefreshShare) mp.Flat { return mp.FlatRefresh(rp, rpo, a) },
 	}
 	agg, ok := mp.Merge(c, ops, shares, mp.Search{Mode: k.mode, Variants: true})
